@@ -145,11 +145,16 @@ impl Stats {
             }
             _ => {}
         }
+        if !o.nontrivial && matches!(o.verdict, Verdict::Pass) && self.samples.len() < 2 {
+            if let Some(s) = &o.sample {
+                self.samples.push(s.clone());
+            }
+        }
         if o.nontrivial && matches!(o.verdict, Verdict::Pass) {
             let new = self.nontrivial_keys.insert(o.key);
             if new {
                 if let Some(s) = &o.sample {
-                    if self.samples.len() < 6 {
+                    if self.samples.len() < 8 {
                         self.samples.push(s.clone());
                     }
                 }
